@@ -26,6 +26,7 @@ class BasePickerModel(ABC):
         scale: nm = 1.0,
         *,
         boundary="nearest",
+        _extra_depth: int = 0,
         **kwargs,
     ) -> Molecules:
         """Pick molecules from image."""
@@ -39,6 +40,8 @@ class BasePickerModel(ABC):
         # if depth is too large
         if isinstance(depth, (int, np.integer)):
             depth = (depth, depth, depth)
+        # additional overlap requested by the picker (e.g. the exclusion distance)
+        depth = tuple(d + type(d)(_extra_depth) for d in depth)
         task: da.Array = image.map_overlap(
             self._pick_in_chunk_wrapped,
             **params,
